@@ -59,15 +59,28 @@ func VerifC32Intersection() {
 	if rt.Tier() > 0 {
 		max = 4
 	}
-	nl := rt.IntRange("nlocal", 0, max)
-	nr := rt.IntRange("nremote", 0, max)
+	c32Intersect(rt.IntRange("nlocal", 0, max), rt.IntRange("nremote", 0, max), 2)
+}
+
+// VerifC32Uneven: the same for lists of very different lengths (one side solicits one or two
+// protocols, the other many), where an implementation may switch strategy.
+func VerifC32Uneven() {
+	shapes := [][2]int{{1, 5}, {5, 1}, {2, 9}, {9, 2}}
+	if rt.Tier() > 0 {
+		shapes = append(shapes, [2]int{1, 9}, [2]int{9, 1}, [2]int{2, 11}, [2]int{11, 2}, [2]int{3, 13}, [2]int{13, 3})
+	}
+	sh := shapes[rt.Choose("shape", len(shapes))]
+	c32Intersect(sh[0], sh[1], 1)
+}
+
+func c32Intersect(nl, nr, width int) {
 	local := make([][]byte, nl)
 	remote := make([][]byte, nr)
 	for i := range local {
-		local[i] = rt.Bytes("l", 2, 2)
+		local[i] = rt.Bytes("l", width, width)
 	}
 	for i := range remote {
-		remote[i] = rt.Bytes("r", 2, 2)
+		remote[i] = rt.Bytes("r", width, width)
 	}
 	rt.Assume(rt.And(c32SortedDistinct(local), c32SortedDistinct(remote)))
 	got := FindMatchingHashes(local, remote)
